@@ -176,6 +176,94 @@ func (m *c03mon) step(cx *clusterRun) {
 
 func (m *c03mon) finish(cx *clusterRun) {}
 
+// probeSched checks the probe-schedule sub-claim from the wire tap. Only pings
+// whose cause is a probe tick are judged, so it is active in runs without
+// indirect checks (then every ping on the wire is a probe ping).
+type probeSched struct {
+	c     *Ctx
+	cx    *clusterRun
+	hist  map[string][]string // prober -> targets probed in the current membership epoch
+	epoch map[string]string
+	pings int64
+	bad   bool
+}
+
+func (ps *probeSched) onTap(r *tapRec) {
+	if r.Stream || ps.bad {
+		return
+	}
+	var S *SimNode
+	for _, n := range ps.cx.cl.nodes {
+		if n.name == r.From {
+			S = n
+		}
+	}
+	if S == nil || S.m == nil || S.conf == nil {
+		return
+	}
+	msgs, err := decodePacket(S.conf, r.Buf)
+	if err != nil {
+		return
+	}
+	for _, wm := range msgs {
+		if wm.Type != pingMsg {
+			continue
+		}
+		var pg ping
+		if decode(wm.Body, &pg) != nil {
+			continue
+		}
+		ps.pings++
+		if pg.Node == S.name {
+			ps.bad = true
+			ps.c.Violate("probe-self", "", S.name, "%s sent a probe ping to itself", S.name)
+			return
+		}
+		S.m.nodeLock.RLock()
+		st, ok := S.m.nodeMap[pg.Node]
+		var live []string
+		for name, x := range S.m.nodeMap {
+			if name != S.name && !x.DeadOrLeft() {
+				live = append(live, name)
+			}
+		}
+		// the decision to probe is taken at the tick; the record may legitimately die
+		// between the tick and the send. A record that has been dead for longer than
+		// one awareness-scaled probe interval was dead at the tick as well.
+		deadTarget := ok && st.DeadOrLeft() && time.Since(st.StateChange) > tProbe(ps.c.Plan.Cfg)+time.Millisecond
+		S.m.nodeLock.RUnlock()
+		if deadTarget {
+			ps.bad = true
+			ps.c.Violate("probe-dead-peer", "", S.name, "%s probed %s which its own table records as dead/left", S.name, pg.Node)
+			return
+		}
+		sortStrs(live)
+		ep := joinStrs(live)
+		if ps.epoch[S.name] != ep {
+			ps.epoch[S.name] = ep
+			ps.hist[S.name] = nil
+		}
+		h := append(ps.hist[S.name], pg.Node)
+		ps.hist[S.name] = h
+		m := len(live)
+		if m >= 2 && len(h) >= 2*m-1 {
+			win := h[len(h)-(2*m-1):]
+			seen := map[string]bool{}
+			for _, x := range win {
+				seen[x] = true
+			}
+			for _, x := range live {
+				if !seen[x] {
+					ps.bad = true
+					ps.c.Violate("probe-schedule-starves-peer", "", S.name, "%s: membership unchanged over its last %d probes %v, yet live peer %s was not probed in them (m=%d live peers)", S.name, 2*m-1, win, x, m)
+					return
+				}
+			}
+			ps.c.Reach("probe_window_checked")
+		}
+	}
+}
+
 func execC03(c *Ctx) {
 	p := c.Plan
 	victim := int(p.param("victim", 0))
@@ -183,6 +271,10 @@ func execC03(c *Ctx) {
 	hm := &healthMon{}
 	em := newEventMon()
 	cx := startClusterRun(c, mon, hm, em)
+	ps := &probeSched{c: c, cx: cx, hist: map[string][]string{}, epoch: map[string]string{}}
+	if p.Cfg.IndirectChecks == 0 {
+		cx.cl.net.tapFn = ps.onTap
+	}
 	crashAt := time.Duration(p.param("crash_at", 0))
 	end := crashAt + mon.bound + 2*time.Second
 	c.Sim.RunUntil(end, func() bool {
@@ -199,6 +291,7 @@ func execC03(c *Ctx) {
 	if _, ok := cx.crashT[victim]; ok && mon.tracked > 0 && len(mon.removed) > 0 {
 		c.Res.Nontrivial = true
 	}
+	c.Stat("probe_pings_judged", ps.pings)
 	c.Stat("max_detect_ms", int64(mon.maxLat/time.Millisecond))
 	c.Stat("bound_ms", int64(mon.bound/time.Millisecond))
 	c.Stat("tracked", int64(mon.tracked))
